@@ -50,6 +50,14 @@ def check(run):
         run.bounded.append({"what": "native: transform / mahalanobis / score(explain) vs the exported filter run by hand; repeat call; parameters unchanged; sensors inserted in non-alphabetical order, several readings, 0-2 controls", "bound": f"{len(cases)} estimators x 4-6 rows", "failures": len(problems), "counted_as_proved": False})
         for p, inp in problems[:2]:
             run.findings.append(Finding("C16.py.native_hand_run", p.split("[")[0][:30], p, {"language": "python", "inputs": inp, "oracle_verdict": p}, True))
+    # an INTEGER-typed data matrix (always run): a finite data matrix like any other
+    run.native_runs += 1
+    ip, info = sklearn_native.transform_problems(run.seed, 5, 2, 2, None, integer_data=True)
+    run.bounded.append({"what": "native: transform / mahalanobis / score of a data matrix of integer dtype vs the exported filter run by hand on the same values", "bound": "1 estimator x 5 rows", "failures": len(ip), "counted_as_proved": False})
+    for p in ip[:1]:
+        inp = {"seed": run.seed, "rows": 5, "n_sensors": 2, "controls": 2, "k_edit": None, "integer_data": True}
+        problems.append((p, inp))
+        run.findings.append(Finding("C16.py.native_integer_matrix", "int-dtype", f"integer-typed data matrix: {p}", {"language": "python", "inputs": inp, "oracle_verdict": p}, True))
     # stateful: the same estimator transformed, reconfigured through set_params, transformed again (always run)
     run.native_runs += 1
     seq, info = sklearn_native.transform_sequence_problems(run.seed)
@@ -70,6 +78,6 @@ def replay_file(payload):
         p, info = sklearn_native.transform_sequence_problems(i.get("seed", 0))
         print("replay C16 (stateful sequence):", p[:2] or "every step equals the hand-run of the exported filter")
         return not p
-    p, info = sklearn_native.transform_problems(i["seed"], i["rows"], i["n_sensors"], i["controls"], i.get("k_edit"))
+    p, info = sklearn_native.transform_problems(i["seed"], i["rows"], i["n_sensors"], i["controls"], i.get("k_edit"), integer_data=i.get("integer_data", False))
     print("replay C16:", p[:3] or "transform / mahalanobis / score equal the hand-run filter's NIS")
     return not p
